@@ -1,4 +1,134 @@
+import IpcHub.Drv.Util
+import IpcHub.Model.Route
+import IpcHub.Spec.RouteMatch
+import IpcHub.Spec.UserEntry
+import IpcHub.Gen.RouteFacts
 namespace IpcHub.Drv.C17
-/-- placeholder: no model built for this property yet -/
-def handle (_ : List String) : String := "bad-op"
+open IpcHub.Drv IpcHub.Tables IpcHub.Route IpcHub.TableSpec
+
+/-! line protocol (one line = one complete history, every field hex, "-" = empty):
+    `hist <op> <op> …` with ops
+      s,<pattern>,<url>,<ka 0|1>,<urlok 0|1>   route.Save
+      d,<pattern>                              route.Del
+      g,<pattern>                              route.Get
+      a                                        route.All
+      m,<path>                                 route.Match (+ table untouched?)
+      c,<path>                                 media.GetOrCreate → arguments of Create
+    answer: `model=<obs>|<obs>… spec=<obs>|<obs>…` (one observation per op) -/
+
+inductive ROp where
+  | save (r : Route) (urlok : Bool)
+  | del (p : List Char)
+  | get (p : List Char)
+  | all
+  | mtch (p : List Char)
+  | create (p : List Char)
+
+def parseOp (tok : String) : Option ROp :=
+  match tok.splitOn "," with
+  | ["s", p, u, ka, ok] =>
+    match hexToChars p, hexToChars u with
+    | some p, some u => some (.save { pattern := p, url := u, keepAlive := ka = "1" } (ok = "1"))
+    | _, _ => none
+  | ["d", p] => (hexToChars p).map .del
+  | ["g", p] => (hexToChars p).map .get
+  | ["a"] => some .all
+  | ["m", p] => (hexToChars p).map .mtch
+  | ["c", p] => (hexToChars p).map .create
+  | _ => none
+
+def parseOps : List String → Option (List ROp)
+  | [] => some []
+  | t :: ts => match parseOp t, parseOps ts with
+    | some o, some os => some (o :: os)
+    | _, _ => none
+
+def fmtRoute (r : Route) : String :=
+  s!"{charsToHex r.pattern},{charsToHex r.url},{boolStr r.keepAlive}"
+
+def fmtList (rs : List Route) : String :=
+  if rs.isEmpty then "[]" else "+".intercalate (rs.map fmtRoute)
+
+def fmtOpt : Option Route → String
+  | none => "none"
+  | some r => "F:" ++ fmtRoute r
+
+def fmtOut : MatchOut → String
+  | .none => "none"
+  | .panic => "panic"
+  | .found r => "F:" ++ fmtRoute r
+
+/-- the model's configuration for one line: ASCII character functions, `url.Parse` verdicts as
+    told by the harness, the two source facts regenerated from /repo -/
+def mkCfg (ops : List ROp) : Cfg :=
+  let bad := ops.filterMap (fun o => match o with | .save r false => some r.url | _ => none)
+  { canon := (PathCanon.asciiCfg IpcHub.Gen.canonLoops), urlOk := fun u => !bad.contains u,
+    urlGuard := IpcHub.Gen.matchUrlGuard, copies := IpcHub.Gen.matchCopies }
+
+def stateEq (a b : State Route) : Bool :=
+  a.m == b.m && a.l == b.l && a.saves == b.saves && a.removes == b.removes
+
+/-- Match under three visiting orders of the map (given, reversed, rotated) -/
+def matchAllOrders (cfg : Cfg) (s : State Route) (p : List Char) : Option (MatchOut × State Route) :=
+  let r1 := matchImpl cfg s p
+  let r2 := matchImpl cfg { s with m := s.m.reverse } p
+  let r3 := matchImpl cfg { s with m := s.m.drop 1 ++ s.m.take 1 } p
+  if r1.1 = r2.1 ∧ r1.1 = r3.1 then some r1 else none
+
+def runModel (cfg : Cfg) : List ROp → State Route → List String → List String
+  | [], _, acc => acc.reverse
+  | op :: rest, s, acc =>
+    match op with
+    | .save r _ =>
+      let (s', ok) := save (routeOps cfg) s r false
+      runModel cfg rest s' ((if ok then "ok" else "err") :: acc)
+    | .del p => runModel cfg rest (del (routeOps cfg) s p) ("ok" :: acc)
+    | .get p => runModel cfg rest s (fmtOpt (get (routeOps cfg) s p) :: acc)
+    | .all => runModel cfg rest s (fmtList (all s) :: acc)
+    | .mtch p =>
+      match matchAllOrders cfg s p with
+      | none => runModel cfg rest s ("order-dependent" :: acc)
+      | some (out, s') =>
+        runModel cfg rest s' ((fmtOut out ++ (if stateEq s s' then ",T1" else ",T0")) :: acc)
+    | .create p =>
+      let o := match createArgs cfg s p with
+        | some (lp, u) => s!"C:{charsToHex lp},{charsToHex u}"
+        | none => match (matchImpl cfg s (canon cfg p)).1 with
+          | .panic => "panic"
+          | _ => "none"
+      runModel cfg rest s (o :: acc)
+
+def runSpec (cfg : Cfg) : List ROp → List Route → List String → List String
+  | [], _, acc => acc.reverse
+  | op :: rest, t, acc =>
+    let e := EntrySpecs.routeSpec cfg
+    match op with
+    | .save r _ =>
+      let ok := (e.create r).isSome
+      runSpec cfg rest (specSave e t r false) ((if ok then "ok" else "err") :: acc)
+    | .del p => runSpec cfg rest (specDel e t p) ("ok" :: acc)
+    | .get p => runSpec cfg rest t (fmtOpt (specGet e t p) :: acc)
+    | .all => runSpec cfg rest t (fmtList t :: acc)
+    | .mtch p => runSpec cfg rest t ((fmtOpt (RouteSpec.resolve cfg t p) ++ ",T1") :: acc)
+    | .create p =>
+      let o := match RouteSpec.resolve cfg t p with
+        | some r => s!"C:{charsToHex (canon cfg p)},{charsToHex r.url}"
+        | none => "none"
+      runSpec cfg rest t (o :: acc)
+
+def handle : List String → String
+  | "hist" :: toks =>
+    match parseOps toks with
+    | none => "bad-op"
+    | some ops =>
+      let cfg := mkCfg ops
+      let m := runModel cfg ops State.empty []
+      let sp := runSpec cfg ops [] []
+      s!"model={"|".intercalate m} spec={"|".intercalate sp}"
+  | ["canon", p] =>
+    match hexToChars p with
+    | some p => s!"model={charsToHex (PathCanon.canonicalPath (PathCanon.asciiCfg IpcHub.Gen.canonLoops) p)}"
+    | none => "bad-op"
+  | _ => "bad-op"
+
 end IpcHub.Drv.C17
